@@ -229,8 +229,17 @@ def run(ctx):
 
     if ctx.tier == "thorough":
         # data races / concurrent socket writes: observed only
-        rows_r, leak_r = _run_harness(ctx, None, q=20, race=True, extra=["-par", "8"])
-        vr = ctx.driver("c11", rows_r)
+        # (the quick script set: a -race binary is several times slower)
+        bin_r = os.path.join(vf.CACHE, "h_c11_race")
+        ctx.go_build("./harness/c11", bin_r, race=True)
+        e = vf.go_env(); e["GOMEMLIMIT"] = "6GiB"
+        rc, so, se = vf.sh([bin_r, "-tier", "quick", "-seed", str(ctx.seed), "-q", "15", "-par", "16"], cwd=vf.GO, env=e, timeout=2400)
+        if rc != 0 or "DATA RACE" in se:
+            ctx.violation({"kind": "race-observation", "what": "the -race build of the harness reported a data race or crashed (e.g. gorilla's concurrent-write panic)",
+                           "detail": (se or so)[-3000:], "shape": {"race": True},
+                           "replay": "cd /verif/go && go build -race -tags verif -o /tmp/h ./harness/c11 && /tmp/h -tier quick -seed %s" % ctx.seed})
+        rows_r = [l for l in so.split("\n") if l and not l.startswith("LEAK\t")]
+        vr = _membership(ctx, rows_r)
         ctx.cov["race_build_scripts"] = len(rows_r)
         ctx.cov["race_build_nonmembers_first_pass"] = sum(1 for v in vr if not v.startswith("member"))
 
